@@ -284,7 +284,14 @@ Definition spec_content_type (root : path) (r : request) (p : path) : string :=
   | None => ""%string
   end.
 
-Definition entry_ok (r : request) (sb : option node) (root p : path) (depth : N) (names_only : bool) (e : ms_entry) : bool :=
+(** [tb q]: the entity tag the server currently announces for the stored file at [q].
+    The statement asks that PUT, GET, HEAD and PROPFIND announce "one and the same
+    string" for an unmodified resource and that it is accepted back; what the string
+    looks like is left open.  The verdicts below therefore take the announced tags as a
+    function: [spec_ok] instantiates it with the model's (hex of the modification time
+    followed by hex of the size), the oracle with what LocalFileSystem.Stat reports for
+    every stored file before and after the request. *)
+Definition entry_ok_with (tb : path -> string) (r : request) (sb : option node) (root p : path) (depth : N) (names_only : bool) (e : ms_entry) : bool :=
   let M := abs sb in
   (* the href is the canonical external path of an in-scope resource, described as stored *)
   match local_segs (me_href e) with
@@ -297,11 +304,14 @@ Definition entry_ok (r : request) (sb : option node) (root p : path) (depth : N)
     | Some (AFile c) =>
       negb (me_dir e) &&
       (if names_only then String.eqb (me_clen e) "" && String.eqb (me_etag e) "" && String.eqb (me_ctype e) ""
-       else String.eqb (me_clen e) (dec (strlen c)) && String.eqb (me_etag e) (tag_at "" sb q) &&
+       else String.eqb (me_clen e) (dec (strlen c)) && String.eqb (me_etag e) (tb q) &&
             String.eqb (me_ctype e) (registered_type r (me_href e)))
     end
   | _ => false
   end.
+
+Definition entry_ok (r : request) (sb : option node) (root p : path) (depth : N) (names_only : bool) (e : ms_entry) : bool :=
+  entry_ok_with (tag_at "" sb) r sb root p depth names_only e.
 
 Fixpoint path_eqb (a b : path) : bool :=
   match a, b with
@@ -322,13 +332,20 @@ Definition properly_nested (a : areq) : bool :=
   | _ => false
   end.
 
-Definition spec_ok (root : path) (sb : option node) (r : request) (o : response) (sb' : option node) : bool :=
+(** A PROPFIND or PROPPATCH whose body cannot be read as the XML it must be: the statement
+    names no status for it; the model answers 400, the verdict accepts every 4xx. *)
+Definition unreadable_body (r : request) (a : areq) : bool :=
+  existsb (String.eqb (meth r)) ["PROPFIND"; "PROPPATCH"]%string &&
+  match pf r with PfBad => true | _ => false end &&
+  match a with ARefused c => N.eqb c 400 | _ => false end.
+
+Definition spec_ok_with (tb ta : path -> string) (root : path) (sb : option node) (r : request) (o : response) (sb' : option node) : bool :=
   let M := abs sb in
   let a := parse_req root r in
-  let tag := tag_at (dir_tag r) sb (req_target root r) in
+  let tag := tb (req_target root r) in
   let refs := refusals root M a (cond_refusals tag r) in
   (status_ok (status o) refs (success_status M a) ||
-   (properly_nested a && N.leb 400 (status o) && N.ltb (status o) 500)) &&
+   ((properly_nested a || unreadable_body r a) && N.leb 400 (status o) && N.ltb (status o) 500)) &&
   match refs with
   | _ :: _ => amap_agree (relevant_paths sb sb' a) (abs sb') M   (* refused: nothing changes *)
   | [] =>
@@ -341,15 +358,15 @@ Definition spec_ok (root : path) (sb : option node) (r : request) (o : response)
         String.eqb (r_clen o) (dec (strlen c)) &&
         (if head then match r_body o with None => true | Some _ => false end
          else match r_body o with Some b => String.eqb b c | None => false end) &&
-        String.eqb (r_etag o) (quote_tag (tag_at "" sb p)) &&
+        String.eqb (r_etag o) (quote_tag (tb p)) &&
         String.eqb (r_ctype o) (spec_content_type root r p)
       | _ => false
       end
-    | APut p c _ => String.eqb (r_etag o) (quote_tag (tag_at "" sb' p))
+    | APut p c _ => String.eqb (r_etag o) (quote_tag (ta p))
     | APropfind p depth names_only =>
       (* every entry describes an in-scope stored resource under its canonical href, once;
          every in-scope resource has an entry *)
-      forallb (entry_ok r sb root p depth names_only) (r_ms o) &&
+      forallb (entry_ok_with tb r sb root p depth names_only) (r_ms o) &&
       forallb (fun e => Nat.eqb (count_href (me_href e) (r_ms o)) 1%nat) (r_ms o) &&
       forallb (fun q => negb (in_scope p depth q) || negb (mapped (M q)) ||
                         match strip_prefix root q with
@@ -365,3 +382,23 @@ Definition spec_ok (root : path) (sb : option node) (r : request) (o : response)
   (if existsb (String.eqb (meth r)) ["PUT"; "DELETE"]%string
    then cond_shape_ok r && (negb (mapped (M (req_target root r))) || negb (String.eqb tag ""))
    else true).
+
+(** The verdict with the model's own tags. *)
+Definition spec_ok (root : path) (sb : option node) (r : request) (o : response) (sb' : option node) : bool :=
+  spec_ok_with (tag_at (dir_tag r) sb) (tag_at "" sb') root sb r o sb'.
+
+(** The verdict with the tags the file system reports ([tags_before], [tags_after]: pairs
+    of a path and the tag LocalFileSystem.Stat announces for the file there); a path
+    without an entry falls back to the model's tag. *)
+Fixpoint lookup_tag (l : list (path * string)) (q : path) : option string :=
+  match l with
+  | [] => None
+  | (p, t) :: rest => if path_eqb p q then Some t else lookup_tag rest q
+  end.
+
+Definition spec_ok_reported (tags_before tags_after : list (path * string))
+    (root : path) (sb : option node) (r : request) (o : response) (sb' : option node) : bool :=
+  spec_ok_with
+    (fun q => match lookup_tag tags_before q with Some t => t | None => tag_at (dir_tag r) sb q end)
+    (fun q => match lookup_tag tags_after q with Some t => t | None => tag_at "" sb' q end)
+    root sb r o sb'.
